@@ -583,6 +583,44 @@ pub fn probe_c10(run: &Run, rng: &mut Rng, acc: &mut Acc) -> Vec<String> {
             out.push(format!("CircuitBreaker moved tokens or packets: {d}"));
         }
     }
+    // ---- every configured monitor can halt, also after the admin has replaced the monitor list
+    {
+        let mut w = b.clone();
+        let fresh: Vec<String> = {
+            let mut v: Vec<String> = (0..3).map(|i| addr20(&sc.cfg.prefix, &format!("halt-monitor-{}-{}", i, rng.below(1000)))).collect();
+            // arbitrary (unsorted) order
+            if rng.chance(1, 2) {
+                v.reverse();
+            }
+            v.rotate_left(rng.below(3) as usize);
+            v
+        };
+        let use_new = rng.chance(1, 2);
+        let list = if use_new {
+            let r = w.exec(&sc.admin, q, &json!({"update_config": {"monitors": fresh}}).to_string(), &[]);
+            if r.ok { fresh.clone() } else { mons.clone() }
+        } else {
+            mons.clone()
+        };
+        for m in &list {
+            let mut w2 = w.clone();
+            let r = w2.exec(m, q, &json!({"circuit_breaker": {}}).to_string(), &[]);
+            acc.seen("C10", &format!("monitor-halts|{use_new}|{}|{}", list.len(), r.ok));
+            if !r.ok {
+                out.push(format!("configured monitor {m} ({} of {} in the list{}) cannot halt the contract: {}", list.iter().position(|x| x == m).unwrap_or(0) + 1, list.len(), if use_new { ", list just replaced by the admin" } else { "" }, r.err));
+            }
+        }
+        if use_new {
+            // the replaced monitors lost the right
+            for m in mons.iter().filter(|m| !list.contains(m)) {
+                let mut w2 = w.clone();
+                if w2.exec(m, q, &json!({"circuit_breaker": {}}).to_string(), &[]).ok {
+                    out.push(format!("former monitor {m} can still halt the contract after the list was replaced"));
+                }
+            }
+            acc.count("c10:monitors_replaced");
+        }
+    }
     // ---- the six value-moving messages, with arguments for which the running clone succeeds
     let user = sc.users[0].clone();
     let holder = sc.users.iter().find(|u| b.bal(u, &sc.t) > 0).cloned();
